@@ -33,7 +33,7 @@ ASSUMPTIONS = [
     "key bits are clear wherever mask bits are clear",
     "sources contain links and/or None",
 ]
-FLOORS = {"no_raise_call": 150, "feedback_table_with_produced_entry": 100,
+FLOORS = {"same_list_new_contents": 300, "no_raise_call": 150, "feedback_table_with_produced_entry": 100,
           "equivalence_keys": 20000, "shorter_result": 100,
           "failure_report": 30, "default_routed_key": 50,
           "merged_entry_match": 200}
@@ -370,10 +370,14 @@ def call_min(mods, fn, table, target):
     raise AssertionError(fn)
 
 
-def judge_call(ctx, mods, t, fn, old, target, Routes, MFE, what):
-    """Run one minimiser on one table and judge the outcome. -> shorter?"""
+def judge_call(ctx, mods, t, fn, old, target, Routes, MFE, what, arg=None):
+    """Run one minimiser on one table and judge the outcome. -> shorter?
+    `arg`: the caller's own long-lived list object, refilled with the table
+    for this call."""
+    if arg is not None:
+        arg[:] = old
     try:
-        new = call_min(mods, fn, list(old), target)
+        new = call_min(mods, fn, list(old) if arg is None else arg, target)
     except MFE as e:
         ctx.hit("failure_report")
         check(target is not None, "failed-without-target",
@@ -441,13 +445,28 @@ def run(case, ctx):
     old = build(case, RTE, Routes)
     nt = False
     obs = []
-    for fn, target in case["calls"]:
+    # one list object of the application's, refilled for every call (a
+    # third of the cases), and at the end the same table with the routes of
+    # its entries exchanged - same length, same keys - through the same
+    # object and the same minimiser
+    kept = [] if (len(old) + len(case["pos"])) % 3 == 0 else None
+    for ci, (fn, target) in enumerate(case["calls"]):
         if fn != "mts":
             what = "%s(target=%r) on %d-entry %s table" % (
                 fn, target, len(old), case["mode"])
-            s = judge_call(ctx, mods, case, fn, old, target, Routes, MFE, what)
+            s = judge_call(ctx, mods, case, fn, old, target, Routes, MFE, what,
+                           arg=kept)
             nt = nt or s
             obs.append(what)
+            if kept is not None and len(old) >= 2 and \
+                    ci == len(case["calls"]) - 1:
+                k = 1 + len(case["pos"]) % (len(old) - 1)
+                old2 = [RTE(set(b.route), a.key, a.mask, set(b.sources))
+                        for a, b in zip(old, old[k:] + old[:k])]
+                ctx.hit("same_list_new_contents")
+                judge_call(ctx, mods, case, fn, old2, target, Routes, MFE,
+                           what + " (the same list object, routes of the "
+                           "entries exchanged since the last call)", arg=kept)
             continue
         tables = {(9, 9): old}
         descr = {(9, 9): case}
